@@ -491,7 +491,7 @@ func GenNode(t *rapid.T, depth int) *Node {
 // TLV-level mutation
 
 // MutOps is the number of tree mutation operators.
-const MutOps = 16
+const MutOps = 17
 
 // MutateTree applies k random structure-level mutations to the trees (in
 // place) and returns them together with the names of the operators used.
@@ -654,6 +654,13 @@ func MutateTree(t *rapid.T, roots []*Node, donors []*Node, k int) ([]*Node, []st
 			}
 			setKids(append(ns, sibs[r.Index+1:]...))
 			ops = append(ops, "many")
+		case 16: // hollow: no content at all but a declared length (e.g. an explicit tag that promises a child the parent does not have)
+			n.Body, n.Children, n.Encap = nil, nil, EncapNone
+			if n.Class == 2 && rapid.IntRange(0, 2).Draw(t, "hcons") > 0 {
+				n.Constructed = true
+			}
+			n.LenMode, n.LenArg = LenLie, pick(t, "hollow", []int{1, 1, 2, 3, 6, 127})
+			ops = append(ops, "hollow")
 		case 15: // replace an integer-looking body by a big-int constant
 			bi := BigInts()
 			v := bi[rapid.IntRange(0, len(bi)-1).Draw(t, "bigint")]
